@@ -33,6 +33,13 @@ def c18_isa(endian):
         'bang': {'type': 'register', 'register': 'b', 'bytecode': {'value': 2, 'size': 2}, 'decorator': {'type': 'exclamation', 'is_prefix': False}},
         'atb': {'type': 'register', 'register': 'b', 'bytecode': {'value': 3, 'size': 2}, 'decorator': {'type': 'at', 'is_prefix': True}}}}
     isa['instructions']['psh'] = {'bytecode': {'value': 0x33, 'size': 6}, 'operands': {'count': 1, 'operand_sets': {'list': ['decs']}}}
+    # numeric alternatives tried in front of register alternatives: a register in any letter case is still a register
+    isa['operand_sets']['inum'] = {'operand_values': {'mm': {'type': 'indirect_numeric', 'bytecode': {'value': 1, 'size': 2},
+                                                             'argument': {'size': 16, 'byte_align': True}}}}
+    isa['instructions']['ldq'] = {'bytecode': {'value': 0x35, 'size': 6}, 'operands': {'count': 1, 'operand_sets': {'list': ['inum']}},
+                                  'variants': [{'bytecode': {'value': 0x36, 'size': 6}, 'operands': {'count': 1, 'operand_sets': {'list': ['ind']}}}]}
+    isa['instructions']['ldn'] = {'bytecode': {'value': 0x37, 'size': 6}, 'operands': {'count': 1, 'operand_sets': {'list': ['imm8']}},
+                                  'variants': [{'bytecode': {'value': 0x38, 'size': 6}, 'operands': {'count': 1, 'operand_sets': {'list': ['reg']}}}]}
     isa['instructions']['lix'] = {'bytecode': {'value': 0x31, 'size': 6}, 'operands': {'count': 1, 'operand_sets': {'list': ['idx']}}}
     isa['instructions']['liy'] = {'bytecode': {'value': 0x32, 'size': 6}, 'operands': {'count': 1, 'operand_sets': {'list': ['iidx']}}}
     return isa
@@ -91,7 +98,7 @@ def gen_ast(rng):
             vals = [[rng.choice([str(rng.randrange(0, 256)), '$' + format(rng.randrange(0, 256), 'x')])] for _ in range(rng.randrange(1, 5))]
             items.append(('data', rng.choice(['.byte', '.2byte']), vals))
             continue
-        mn = rng.choice(['nop', 'q4', 'inr', 'nib', 'ldi', 'q12', 'tri', 'jmp', 'ldx', 'sel', 'mv2', 'lix', 'liy', 'bra', 'psh'])
+        mn = rng.choice(['nop', 'q4', 'inr', 'nib', 'ldi', 'q12', 'tri', 'jmp', 'ldx', 'sel', 'mv2', 'lix', 'liy', 'bra', 'psh', 'ldq', 'ldn'])
         lab = rng.choice(defined) if defined and rng.random() < 0.5 else None
         num = str(rng.randrange(0, 16))
         if mn in ('nop', 'q4'):
@@ -120,6 +127,10 @@ def gen_ast(rng):
             ops = [[rng.choice(sorted(c10.ENUM))]]
         elif mn == 'mv2':
             ops = [[R(rng.choice(c10.REGS))], [num]]
+        elif mn == 'ldq':
+            ops = [['[', R(rng.choice(['sp', 'a'])), ']']] if rng.random() < 0.6 else [['[', str(rng.randrange(0, 60000)), ']']]
+        elif mn == 'ldn':
+            ops = [[R(rng.choice(c10.REGS))]] if rng.random() < 0.6 else [[num]]
         elif mn == 'psh':
             ops = [[rng.choice([('dreg', 'sp', '', '++'), ('dreg', 'a', '--', ''), ('dreg', 'b', '', '!'), ('dreg', 'b', '@', '')])]]
         elif mn == 'lix':
@@ -378,7 +389,7 @@ class C18(core.Check):
                     t.add('quote-in-comment-after-quoted-statement')
                 if 'join-instructions' in ks:
                     for ln in src.split('\n'):
-                        c_ = len(re.findall(r'(?i)(?<![\w.])(nop|q4|inr|nib|ldi|q12|tri|jmp|ldx|sel|mv2|lix|liy|bra)(?![\w.])', ln.split(';')[0]))
+                        c_ = len(re.findall(r'(?i)(?<![\w.])(nop|q4|inr|nib|ldi|q12|tri|jmp|ldx|sel|mv2|lix|liy|bra|psh|ldq|ldn)(?![\w.])', ln.split(';')[0]))
                         if c_ >= 2:
                             t.add('joined>=2')
                         if c_ >= 3:
